@@ -397,15 +397,34 @@ def d(ck: Check) -> None:
           key="setup")
     # the transitions that are removed
     probs1, probs2 = [], []
-    sets = [(w, c_) for _, w, c_, _ in removed if w.startswith("elem(acc[")]
+    sets = [(w, c_, None) for _, w, c_, _ in removed if w.startswith("elem(acc[")]
+    if not sets:
+        # the set is an expression over several pieces (`producers | consumers`, one of them a comprehension)
+        for c in own_walk(g.f.node):
+            if isinstance(c, ast.Call) and isinstance(c.func, ast.Attribute) and c.func.attr in ("remove_node", "remove_nodes_from") and c.args:
+                cn = g.cfgn(c)
+                src = None
+                if c.func.attr == "remove_nodes_from":
+                    src, at_ = c.args[0], cn
+                elif isinstance(c.args[0], ast.Name):
+                    lps_ = [l for l in g.cfg.enclosing_loops(cn) if isinstance(l, ast.For) and text(l.target) == c.args[0].id]
+                    if lps_:
+                        src, at_ = lps_[0].iter, g.cfg.loop_header[lps_[0]]
+                if src is not None:
+                    y_, _ = g.deref_at(src, at_)
+                    if isinstance(y_, ast.BinOp) or (isinstance(y_, ast.Call) and callee_name(y_) == "union"):
+                        col = se.collection(src, at_)
+                        if col is not None:
+                            sets.append((None, se.cond(cn), [(el, logic.And(se.cond(cn), cd), cn) for el, cd in col]))
     if len(sets) != 1:
         probs1.append("the transitions to delete are not collected in one set that is removed as a whole")
     else:
-        w, c_ = sets[0]
+        w, c_, contrib = sets[0]
         if not logic.equivalent(c_, both):
             probs1.append("collected transitions are not always removed")
-        tok = w[len("elem("):-1]
-        contrib = se.contributions(tok)
+        if contrib is None:
+            tok = w[len("elem("):-1]
+            contrib = se.contributions(tok)
         want = {
             f"elem(preds({FIX}))": logic.And(both, logic.Not(logic.B(f"T:{R}.has_edge({FIX},elem(preds({FIX})))"))),
             f"elem(preds({INV}))": logic.And(both, logic.Not(logic.B(f"T:{R}.has_edge({INV},elem(preds({INV})))"))),
